@@ -528,6 +528,16 @@ func (tf *transformer) saveGoAsmNames() error {
 		nameMap[name+"__size"] = obfTypeName + "__size"
 		for field := range strct.Fields() {
 			obfFieldName := hashWithStruct(strct, field)
+			if field.Embedded() {
+				// An embedded field is named after its type, and transformGoFile
+				// obfuscates it as that type's name rather than as a field.
+				obfFieldName = field.Name()
+				if tname := namedType(field.Type()); tname != nil {
+					if newName, ok := tf.obfuscatedObjectName(tname); ok {
+						obfFieldName = newName
+					}
+				}
+			}
 			nameMap[name+"_"+field.Name()] = obfTypeName + "_" + obfFieldName
 		}
 	}
